@@ -28,6 +28,8 @@ Definition ref_insert_first (m : refmap) (k : str) (e : refentry) : refmap :=
 Definition R_CODE := 20. Definition R_FENCE := 21. Definition R_QUOTE := 22. Definition R_HR := 23.
 Definition R_LIST := 24. Definition R_REF := 25. Definition R_HEADING := 26. Definition R_LHEADING := 27.
 Definition R_PARA := 28. Definition R_HTMLBLOCK := 29. Definition R_CUSTOM_A := 30. Definition R_CUSTOM_B := 31.
+(* a mark used only as an alias shared by the two custom block rules (never a rule of its own) *)
+Definition R_CUSTOM_GROUP := 32.
 
 Record bcfg := BCfg { bc_chain : list N; bc_maxnest : N; bc_fence_prefix : str }.
 
